@@ -30,7 +30,7 @@ theorem matrix_inverse_left (g : Vec ℝ 2) (h : Unit g) :
   unfold Unit at h
   fin_cases i <;> fin_cases j <;>
     simp [SO2.matrix, SO2.inverse, mmul, ident, mat2, mk2, vsum, Mat.of, Vec.of] <;>
-    linear_combination h
+    first | linear_combination h | ring
 
 theorem matrix_inverse_right (g : Vec ℝ 2) (h : Unit g) :
     mmul (SO2.matrix g) (SO2.matrix (SO2.inverse g)) = ident 2 := by
@@ -38,7 +38,7 @@ theorem matrix_inverse_right (g : Vec ℝ 2) (h : Unit g) :
   unfold Unit at h
   fin_cases i <;> fin_cases j <;>
     simp [SO2.matrix, SO2.inverse, mmul, ident, mat2, mk2, vsum, Mat.of, Vec.of] <;>
-    linear_combination h
+    first | linear_combination h | ring
 
 theorem unit_identity : Unit (SO2.identity : Vec ℝ 2) := by
   simp [Unit, SO2.identity, mk2, Vec.of]
@@ -60,7 +60,7 @@ theorem unit_inverse (g : Vec ℝ 2) (h : Unit g) : Unit (SO2.inverse g) := by
 theorem act_eq (g v : Vec ℝ 2) :
     SO2.act g v = mk2 (g 1 * v 0 - g 0 * v 1) (g 0 * v 0 + g 1 * v 1) := by
   ext i
-  fin_cases i <;> simp [SO2.act, SO2.matrix, mulVec, mat2, mk2, vsum, Mat.of, Vec.of] <;> ring
+  fin_cases i <;> (simp [SO2.act, SO2.matrix, mulVec, mat2, mk2, vsum, Mat.of, Vec.of]; try ring)
 
 theorem isMatrixGroup : IsMatrixGroup (SO2.model : LieModel ℝ) Unit where
   valid_identity := unit_identity
@@ -93,8 +93,8 @@ theorem matrix_identity : C1.matrix (C1.identity : Vec ℝ 2) = ident 2 := by
 theorem matrix_inverse_left (g : Vec ℝ 2) (h : Valid g) :
     mmul (C1.matrix (C1.inverse g)) (C1.matrix g) = ident 2 := by
   ext i j
-  have h' : g 0 * g 0 + g 1 * g 1 ≠ 0 := by
-    intro h0; apply h; rw [← h0]; ring
+  unfold Valid at h
+  have h' : g 1 ^ 2 + g 0 ^ 2 ≠ 0 := by rwa [add_comm]
   fin_cases i <;> fin_cases j <;>
     simp [C1.matrix, C1.inverse, mmul, ident, mat2, mk2, vsum, Mat.of, Vec.of] <;>
     field_simp <;> ring
@@ -102,8 +102,8 @@ theorem matrix_inverse_left (g : Vec ℝ 2) (h : Valid g) :
 theorem matrix_inverse_right (g : Vec ℝ 2) (h : Valid g) :
     mmul (C1.matrix g) (C1.matrix (C1.inverse g)) = ident 2 := by
   ext i j
-  have h' : g 0 * g 0 + g 1 * g 1 ≠ 0 := by
-    intro h0; apply h; rw [← h0]; ring
+  unfold Valid at h
+  have h' : g 1 ^ 2 + g 0 ^ 2 ≠ 0 := by rwa [add_comm]
   fin_cases i <;> fin_cases j <;>
     simp [C1.matrix, C1.inverse, mmul, ident, mat2, mk2, vsum, Mat.of, Vec.of] <;>
     field_simp <;> ring
@@ -132,14 +132,14 @@ theorem valid_inverse (g : Vec ℝ 2) (h : Valid g) : Valid (C1.inverse g) := by
   show (-(g 0) / (g 0 * g 0 + g 1 * g 1)) ^ 2 + (g 1 / (g 0 * g 0 + g 1 * g 1)) ^ 2 ≠ 0
   have : (-(g 0) / (g 0 * g 0 + g 1 * g 1)) ^ 2 + (g 1 / (g 0 * g 0 + g 1 * g 1)) ^ 2
       = 1 / (g 0 * g 0 + g 1 * g 1) := by
-    field_simp; ring
+    field_simp
   rw [this]
   exact one_div_ne_zero h'
 
 theorem act_eq (g v : Vec ℝ 2) :
     C1.act g v = mk2 (g 1 * v 0 - g 0 * v 1) (g 0 * v 0 + g 1 * v 1) := by
   ext i
-  fin_cases i <;> simp [C1.act, C1.matrix, mulVec, mat2, mk2, vsum, Mat.of, Vec.of] <;> ring
+  fin_cases i <;> (simp [C1.act, C1.matrix, mulVec, mat2, mk2, vsum, Mat.of, Vec.of]; try ring)
 
 theorem isMatrixGroup : IsMatrixGroup (C1.model : LieModel ℝ) Valid where
   valid_identity := valid_identity
